@@ -2,10 +2,13 @@
 import collections
 from core import Case
 import c10_common as C
+import c10_dev
 
 PROP = 'C10'
-COQ_TARGETS = ['theories/AsapFacts.vo', 'theories/AsapCodecFacts.vo']
-COQ_IMPORTS = 'From Bac Require Import Base.\nFrom Bac Require Import Tag.\nFrom Bac Require Import Asap.\nFrom Bac Require Import AsapCodec.'
+COQ_TARGETS = ['theories/AsapFacts.vo', 'theories/AsapCodecFacts.vo', 'theories/DeviceRxFacts.vo', 'theories/DeviceRxReply.vo',
+               'theories/DeviceRxEnd.vo', 'theories/DeviceRxPeer.vo']
+COQ_IMPORTS = ('From Bac Require Import Base.\nFrom Bac Require Import Tag.\nFrom Bac Require Import Asap.\nFrom Bac Require Import AsapCodec.\n'
+               'From Bac Require SsmWorld.\nFrom Bac Require Import Ssm DeviceRx.')
 RULE = ('valid confirmed requests of every supported service (ReadProperty, WriteProperty, ReadPropertyMultiple, SubscribeCOV, '
         'DeviceCommunicationControl, AtomicReadFile/WriteFile, one unsupported and one unknown service) x every truncation, '
         '6 substitutions per parameter octet and 7 insertions per position with the fixed header intact, sent as raw frames to a full '
@@ -13,10 +16,21 @@ RULE = ('valid confirmed requests of every supported service (ReadProperty, Writ
         'model from the independently observed decode outcome and service outcome vs the reply on the LAN.  direct: exactly one reply '
         'with the invoke ID, no transaction/timer residue, garbage (random octets at network and application layer, corrupted '
         'headers) interleaved with valid requests in one instant, and a valid request afterwards.  non-trivial = the mutated frame '
-        'differs from the valid one; distinct by octets.')
+        'differs from the valid one; distinct by octets.  Device level (kinds dev:*): every third mutated frame and scenario '
+        'families (garbage of every layer incl. address-field shapes and network-layer messages interleaved with valid requests, '
+        'histories of valid traffic with time passing, routed requests through alternating routers with a planted I-Am-Router, '
+        'small max-APDU codes with good/bad segment acks and client aborts, segmented requests in/out of order with duplicates, '
+        'a service that never responds with duplicates / client aborts / time passing, a device with communication disabled): every injected frame is predicted from its raw octets by DeviceRx.device_rx '
+        '(frames sent with destination, route, PDU type, invoke ID, reason / error class+code, segmentation; server '
+        'transactions, their armed timers, orphan timers after each frame and at quiescence) and compared with the stack.')
 TRUSTED = ['model coq/theories/Asap.v + AsapCodec.v = service lookup (registry translated from apdu.py), parameter decoding by the C03 codec model, dispatch and error mapping of ApplicationServiceAccessPoint.indication and Application.indication; '
            'service execution enters the model as an observed outcome (modelled under C15/C16)',
-           'the transport half (ServerSSM) is modelled under C04/C12']
+           'the transport half (ServerSSM) is modelled under C04/C12',
+           'model coq/theories/DeviceRx.v = hand-written composition (process_npdu of a one-adapter device, SMAP demultiplexing, sap_confirmation, '
+           'NSAP.indication for replies) of Npci.dec_npci/dec_msg (C08), RouterCache (C19), Apci.dec_apci (C07), Ssm.s_indication/s_confirmation/'
+           's_process_task (C04/C05/C11/C12), AsapCodec.asap_octets (C03 codec); tied by the dev:* correspondence cases',
+           'service-layer outcome per frame (helper present, response/exception, ComplexAck parameter length, I-Am cache update) observed by '
+           'instance-level wrappers at the helper / ASAP boundary of the device under test (harness/c10_dev.py)']
 ASSUMPTIONS = ['replies are observed on the virtual LAN by a bare node with an independent minimal NPDU/APDU parser',
                'link-layer (BVLL) garbage is injected as raw datagrams toward a B/IP device (BIPSimple + AnnexJCodec over a socket-free multiplexer) in the direct check']
 
@@ -157,11 +171,22 @@ def request_pool(rng):
     return out
 
 
+DEV_STATS = {}
+_POOL = []
+
+
+def request_pool_static():
+    return _POOL[0]
+
+
 def cases(rng, tier):
     _quiet()
-    out = []
+    out, dev = [], []
+    DEV_STATS.clear()
     per = 10 ** 9 if tier == 'thorough' else 170
-    for name, apdu in request_pool(rng):
+    pool = request_pool(rng)
+    _POOL[:] = [pool]
+    for name, apdu in pool:
         muts = [('valid', apdu)] + C.mutations(rng, apdu)
         if len(muts) > per:
             head = muts[:1]
@@ -176,7 +201,21 @@ def cases(rng, tier):
             out.append(Case(name, coq_octets(m, helper, x), canon_dec_out(known, d) + flat, key=bytes(m), nontrivial=(how != 'valid'),
                             desc={'request': name, 'mutation': how, 'apdu': bytes(m).hex(),
                                   'decode_outcome': list(d), 'service_outcome': list(x)}))
-    return out
+            # device level: the same frame predicted from its raw octets through every layer (DeviceRx.v)
+            if tier == 'thorough' or how == 'valid' or len(out) % 3 == 0:
+                c = c10_dev.single_case(name, how, m)
+                if c is not None:
+                    dev.append(c)
+    dev += c10_dev.scenario_cases(rng, tier, request_pool_static(), C.other_confirmed(INVOKE), C.unconfirmed_requests(), DEV_STATS)
+    # interleave so that the in-kernel shards are balanced
+    merged, k = [], max(1, len(out) // max(1, len(dev)))
+    it = iter(dev)
+    for i, c in enumerate(out):
+        merged.append(c)
+        if i % k == k - 1:
+            merged.extend([d for d in [next(it, None)] if d is not None])
+    merged.extend(it)
+    return merged
 
 
 def direct(rng, tier, focus=()):
@@ -240,7 +279,7 @@ def direct(rng, tier, focus=()):
         frames, hdr_garbage = [], False
         for _ in range(rng.randrange(1, 5)):
             g, hg = garbage(rng.randrange(5))
-            frames.append(g); hdr_garbage = hdr_garbage or hg
+            frames.append(_avoid_ids(g)); hdr_garbage = hdr_garbage or hg
         pos = rng.randrange(len(frames) + 1)
         frames.insert(pos, C.npdu(bytes(v)))
         w = C.Device()
@@ -456,7 +495,18 @@ def direct(rng, tier, focus=()):
                              'datagrams': [f.hex() for f in frames], 'residue': res})
         nontriv.add(tuple(frames))
     samples.append({'direct': 'BVLL garbage + valid Original-Unicast request', 'example': bvll(0x0a, C.npdu(rp)).hex()})
-    return failures, {'evaluations': n, 'distinct_nontrivial': len(nontriv), 'samples': samples}
+    return failures, {'evaluations': n, 'distinct_nontrivial': len(nontriv), 'samples': samples, 'device_level_notes': dict(DEV_STATS)}
+
+
+def _avoid_ids(g):
+    """garbage must not impersonate the transactions of the valid requests (invoke IDs 77 / 78, see DESIGN.md section 15):
+    random octets that parse as an APDU carrying one of them (e.g. a later segment of a segmented request, answered by an
+    Abort with that ID since the first-segment fix) get 79 instead; no random number is consumed"""
+    r = C.parse_npdu_apdu(g)
+    if r is not None and r[0] != 'netmsg' and r[1] in (77, 78):
+        k = len(g) - len(r[2]) + (2 if (r[0] == 0 and len(r[2]) >= 3) else 1)
+        g = g[:k] + bytes([79]) + g[k + 1:]
+    return g
 
 
 def _has_reserved_maxapdu(frames_hex):
